@@ -1098,6 +1098,8 @@ def allclose(a, b, rtol=Fraction(1, 100000), atol=Fraction(1, 100000000)):
             if isinstance(y, int):
                 y = float(y)
             return abs(x - y) <= at + rt * abs(y)
+        if isinstance(x, Sym) and isinstance(y, Sym) and x.z.eq(y.z):
+            return True          # the same term: |x - y| = 0 <= atol
         d = x - y
         bound = atol + rtol * abs(y)
         return _and(d <= bound, -d <= bound)
